@@ -426,9 +426,9 @@ class ResourcePeriodicallyInterrupted(ResourceConstraint):
         resource_assigned = False
 
         for worker in workers:
-            conds = []
             for task, (start_task_i, end_task_i) in worker._busy_intervals.items():
                 resource_assigned = True
+                conds = []
                 overlaps = []
 
                 # check if the task allows variable duration
@@ -521,19 +521,20 @@ class ResourcePeriodicallyInterrupted(ResourceConstraint):
                             task._duration <= task.max_duration + total_overlap
                         )
 
-            # TODO: add AND only of mask is set?
-            core = z3.And(*conds)
+                # the activity window (start / end) is evaluated for each task
+                # TODO: add AND only of mask is set?
+                core = z3.And(*conds)
 
-            mask = [core]
-            if self.start > 0:
-                mask.append(end_task_i <= self.start)
-            if self.end is not None:
-                mask.append(start_task_i >= self.end)
+                mask = [core]
+                if self.start > 0:
+                    mask.append(end_task_i <= self.start)
+                if self.end is not None:
+                    mask.append(start_task_i >= self.end)
 
-            if len(mask) > 1:
-                self.set_z3_assertions(z3.Or(*mask))
-            else:
-                self.set_z3_assertions(*mask)
+                if len(mask) > 1:
+                    self.set_z3_assertions(z3.Or(*mask))
+                else:
+                    self.set_z3_assertions(*mask)
 
         if not resource_assigned:
             raise AssertionError(
